@@ -155,7 +155,7 @@ theorem step_acct (w w' : World) (e : Ev) (hI : AcctInv w) (h : step w e = some 
   · rename_i k phase rest hst
     exact cancelStep_acct w w' k phase rest _ hst hI h
   · -- inline callback inside a start call
-    rename_i op k kind counted rest op' res n data early hst
+    rename_i op k kind rest op' res n data early hst
     cases hg : getObj w k with
     | none => simp [hg] at h
     | some o =>
@@ -163,7 +163,7 @@ theorem step_acct (w w' : World) (e : Ev) (hI : AcctInv w) (h : step w e = some 
       repeat' split at h
       all_goals acct_branch hst
   · -- start call returns
-    rename_i op k kind counted completed rest r hst
+    rename_i op k kind completed rest r hst
     cases hg : getObj w k with
     | none =>
       simp only [hg] at h
